@@ -59,7 +59,7 @@ def run(ctx: Ctx):
 
 def _c04_shared(sub, m):
   from mlmverif.props import c04
-  for r in (c04.r1, c04.r4, c04.r6):
+  for r in (c04.r1, c04.r4, c04.r5, c04.r6):
     sub.guard(r, m)
 
 
